@@ -159,7 +159,7 @@ func (o *objectGoMapSimple) exportType() reflect.Type {
 
 func (o *objectGoMapSimple) equal(other objectImpl) bool {
 	if other, ok := other.(*objectGoMapSimple); ok {
-		return o == other
+		return o == other || o.data != nil && other.data != nil && reflect.ValueOf(o.data).Pointer() == reflect.ValueOf(other.data).Pointer()
 	}
 	return false
 }
